@@ -1683,6 +1683,13 @@ class sptensor:
             old_modes = np.arange(0, self.ndims, dtype=int)
             keep_modes = np.array([], dtype=int)
         else:
+            old_modes = np.asarray(old_modes, dtype=int)
+            if (
+                np.any(old_modes < 0)
+                or np.any(old_modes >= self.ndims)
+                or np.unique(old_modes).size != old_modes.size
+            ):
+                assert False, "old_modes must be distinct modes of the tensor"
             keep_modes = np.setdiff1d(np.arange(0, self.ndims, dtype=int), old_modes)
 
         shapeArray = np.array(self.shape)
